@@ -364,3 +364,77 @@ def ob_sweeps(ctx, res):
             res.fail("sweep/summary-args", cs[0], "summary sweep must receive (entry.start, entry.end, next.start); got %s" % o[2:])
         else:
             res.ok(cs[0], "summary sweep fed (entry.start, entry.end, next entry's start)")
+
+
+def ob_every_value_processed(ctx, res):
+    """C01/C02/C06/C07/C08: between the refusal guards and the end of the per-value functions there is no early success exit:
+    every accepted value reaches the summary update / depth sweep, the items buffer, the flush test and every zoom level."""
+    for file, what in ((WW, "bigWig"), (BW, "bigBed")):
+        fn = ctx.ast.fn(file, "process_val")
+        bad = [n for n in walk_no_nested_fn(fn.body) if n.k == "return" and not up(n).startswith("return Err(")]
+        bad += [n for n in walk_no_nested_fn(fn.body) if n.k == "continue"]
+        # returns inside the summary-sweep closure do not leave process_val; walk_no_nested_fn descends into closures, so filter them
+        bad = [n for n in bad if not _in_closure(n)]
+        if bad:
+            res.fail("everyValue/%s/process_val" % what, bad[0], "`%s` leaves process_val early with success: the value would skip the summary / items buffer / section flush test "
+                     "(a chromosome whose last value takes this path never flushes its last section)" % up(bad[0])[:60])
+            continue
+        # effects are unconditional top-level statements, in order: summary (update or sweep call) -> items.push -> flush if
+        st = fn.body["stmts"]
+        idx = {}
+        for i, s_ in enumerate(st):
+            t = up(s_)
+            if re.match(r"summary\.\w+ (\+=|=)", t) or t.startswith("add_interval_to_summary("):
+                idx.setdefault("summary", i)
+            if re.match(r"items\.push\(current_val\);", t):
+                idx["push"] = i
+            if s_.k == "expr_stmt" and strip(s_["e"]).k == "if" and "encode_section" in t:
+                idx["flush"] = i
+        if set(idx) != {"summary", "push", "flush"} or not (idx["summary"] < idx["push"] < idx["flush"]):
+            res.fail("everyValue/%s/effects" % what, fn, "summary update, items.push(current_val) and the flush test must be unconditional top-level statements in that order; found %s" % idx)
+            continue
+        res.ok(fn, "%s process_val: only `return Err(..)` exits before the end; summary -> items.push -> flush test unconditional and in order" % what)
+    for file, what in ((WW, "bigWig"), (BW, "bigBed")):
+        fn = ctx.ast.fn(file, "process_val_zoom")
+        rets = [n for n in walk_no_nested_fn(fn.body) if n.k == "return"]
+        st = [s_ for s_ in fn.body["stmts"] if not (s_.k == "expr_stmt" and strip(s_["e"]).k == "macro")]
+        top_ok = len(st) >= 1 and st[0].k == "expr_stmt" and strip(st[0]["e"]).k == "for" and "zoom_items.iter_mut()" in up(strip(st[0]["e"])["iter"])
+        if rets or not top_ok or len(st) > 2:
+            res.fail("everyValue/%s/process_val_zoom" % what, rets[0] if rets else fn,
+                     "process_val_zoom must run its per-zoom-level loop for EVERY value (first statement, no early return): skipping a value leaves the "
+                     "depth sweep / live record of each level un-advanced, so later records absorb bases of earlier entries")
+            continue
+        lp = strip(st[0]["e"])
+        conts = [n for n in walk_no_nested_fn(lp["body"]) if n.k == "continue" and _nearest_loop(n) is lp]
+        if conts:
+            res.fail("everyValue/%s/zoom-continue" % what, conts[0], "a zoom level is skipped for some values (`continue` in the per-level loop)")
+            continue
+        res.ok(fn, "%s process_val_zoom: the per-level loop is the first statement, no early return, no level skipped" % what)
+    # do_process calls both for every value (full processors)
+    for file, impl in ((WW, "BigWigFullProcess"), (BW, "BigBedFullProcess")):
+        fn = ctx.ast.fn(file, "do_process", impl=impl)
+        a = [c for c in walk_no_nested_fn(fn.body) if c.k == "call" and up(c["func"]) == "process_val"]
+        b = [c for c in walk_no_nested_fn(fn.body) if c.k == "call" and up(c["func"]) == "process_val_zoom"]
+        from ..astq import cond_ancestors
+        if len(a) != 1 or len(b) != 1 or cond_ancestors(a[0]) or cond_ancestors(b[0]) or not a[0].order < b[0].order:
+            res.fail("everyValue/%s/do_process" % impl, fn, "do_process must call process_val and then process_val_zoom unconditionally for every value")
+        else:
+            res.ok(fn, "%s::do_process: process_val(..)? then process_val_zoom(..) for every value" % impl)
+
+
+def _in_closure(n):
+    p = n.parent
+    while p is not None and isinstance(p, Node):
+        if p.k == "closure":
+            return True
+        p = p.parent
+    return False
+
+
+def _nearest_loop(n):
+    p = n.parent
+    while p is not None and isinstance(p, Node):
+        if p.k in ("for", "while", "loop"):
+            return p
+        p = p.parent
+    return None
